@@ -1,7 +1,7 @@
 use std::{
     collections::HashMap,
     fmt,
-    io::{BufRead, BufReader, Read, Seek, SeekFrom, Write},
+    io::{BufRead, BufReader, Read, Write},
     path::{Component, Path, PathBuf},
     sync::{Arc, RwLock, RwLockReadGuard, RwLockWriteGuard},
 };
@@ -877,16 +877,15 @@ impl VirtualFileSystem for Memfs {
         let path = self._abs(&guard, path)?;
         self._add(&mut guard, MemfsEntry::opts(&path).file().build())?;
 
-        if let Some(file) = guard.get_file(&path) {
-            // Clone the file to append to
-            let mut clone = file.clone();
-            clone.path = Some(path.clone());
-            // Set the filesystem callback to write out
-            clone.fs = Some(self.clone());
-
-            // Seek to the end for appending
-            clone.seek(SeekFrom::End(0))?;
-            Ok(Box::new(clone))
+        if guard.contains_file(&path) {
+            // Collect the data to append and add it to the end of the file on every sync
+            Ok(Box::new(MemfsFile {
+                pos: 0,
+                data: vec![],
+                path: Some(path),
+                fs: Some(self.clone()),
+                append: true,
+            }))
         } else {
             Err(PathError::does_not_exist(path).into())
         }
@@ -2172,6 +2171,7 @@ impl VirtualFileSystem for Memfs {
             data: vec![],
             path: Some(path),
             fs: Some(self.clone()),
+            append: false,
         }))
     }
 
